@@ -1,6 +1,6 @@
 (* C19 — computed fields mean the same thing in every target language. *)
 From Coq Require Import List NArith ZArith Bool.
-From YV Require Import Model.Binary Gen.Tables Model.Expr Proofs.ExprProofs.
+From YV Require Import Model.Binary Gen.Tables Model.Expr Proofs.ExprProofs Model.FloatExpr Proofs.FloatExprProofs.
 Import ListNotations.
 Open Scope Z_scope.
 
@@ -35,6 +35,24 @@ Proof. exact division_refuted. Qed.
 Theorem C19_unsigned_negation_refuted :
   eval_cpp [PUint32] [1] (ENeg (EField 0)) = 4294967295 /\ eval_py [1] (ENeg (EField 0)) = -1.
 Proof. exact unsigned_negation_refuted. Qed.
+
+(* floating-point computed fields (double operands, + - * / and unary minus): the value is, at every operator, the
+   correctly rounded result (nearest, ties to even) of the mathematical operation on the operand values, provided no
+   intermediate result overflows and no divisor is zero - one value, which generated C++ and generated Python both produce
+   (tie: bit patterns compared on every run) *)
+Theorem C19_float_eval_is_rounded_math : forall fields e, fok fields e ->
+  B2R64 (feval fields e) = reval fields e /\ fin64 (feval fields e) = true.
+Proof. exact feval_correct. Qed.
+Print Assumptions C19_float_eval_is_rounded_math.
+
+(* division of doubles is division: 7.0 / 2.0 = 3.5 and not the 3.0 of floor division *)
+Theorem C19_float_division_is_not_floor :
+  fbits (feval [4619567317775286272; 4611686018427387904] (FBin FDiv (FField 0) (FField 1))) = 4615063718147915776
+  /\ 4615063718147915776 <> 4613937818241073152.
+Proof. exact float_division_is_not_floor. Qed.
+
+Example C19_float_hyp_sat : fok [4619567317775286272; 4611686018427387904] (FBin FDiv (FField 0) (FField 1)).
+Proof. exact fok_sat. Qed.
 
 Example C19_hyp_sat :
   in_range_all [PUint8; PInt16; PInt64] [200; -5; 1000000]
